@@ -467,7 +467,18 @@ class C08SafeOutputs(Oracle):
                     k = "C08.error_pause_not_safe" if err else "C08.not_safe_while_paused"
                     if name in self.pause_cmd_writes:
                         k = "C08.running_command_writes_during_pause"
-                    self.v("C08", k, name, f"Paused (error={err}) but hardware holds {name}={mem.get(name)!r}, safe {sv!r}")
+                    sim = ""
+                    try:
+                        if w.engine.tags[name].simulated:
+                            # the output tag is simulated: what is written to the hardware is the simulated value, also
+                            # while the tag itself holds the safe value (a defect of its own, with its own context)
+                            sim = "@simulated_output"
+                    except Exception:
+                        pass
+                    if sim:
+                        k, sim = "C08.not_safe_while_paused", "@simulated_output"
+                    self.v("C08", k + sim, name, f"Paused (error={err}) but hardware holds {name}={mem.get(name)!r}, safe {sv!r}"
+                           + (" (the tag is simulated)" if sim else ""))
         if st != "Paused":
             self.user_touched.clear()
             self.pause_cmd_writes.clear()
